@@ -6,6 +6,7 @@ import (
 	"io"
 	"math"
 	"math/rand"
+	"os"
 	"sort"
 	"strings"
 
@@ -125,6 +126,20 @@ func init() {
 			return ""
 		},
 	})
+}
+
+// c16mistreat does to a returned listing what callers do: filter in place, reorder, append.
+func c16mistreat(l []hackpadfs.DirEntry) {
+	first := l[0]
+	for i, j := 0, len(l)-1; i < j; i, j = i+1, j-1 {
+		l[i], l[j] = l[j], l[i]
+	}
+	for i := range l {
+		l[i] = first
+	}
+	if cap(l) > len(l) {
+		_ = append(l, first) // lands in the spare capacity of the array the callee handed out
+	}
 }
 
 func c16sizeClass(n int) string {
@@ -291,6 +306,11 @@ func c16run(env *core.Env, idx int) core.CaseResult {
 			break
 		}
 	}
+	// a child that carries the listed directory's own name, with children of its own (d/d/deep-inside is no child of d)
+	if cs.Dir != "." && cs.N >= 1 {
+		want = append(want, child{name: cs.Dir, dir: true})
+		items = append(items, treeItem{Path: prefix + cs.Dir, Dir: true, Perm: 0o755}, treeItem{Path: prefix + cs.Dir + "/deep-inside", Perm: 0o644, Data: "deep"}, treeItem{Path: prefix + cs.Dir + "/" + cs.Dir, Dir: true, Perm: 0o755})
+	}
 	// deeper down, entries with the SAME base names as children of the listed directory but of the other kind
 	var twins []string
 	if cs.Dir == "." && cs.N >= 2 {
@@ -356,6 +376,14 @@ func c16run(env *core.Env, idx int) core.CaseResult {
 			res.Violate(fmt.Sprintf("C16|%s|byname|%s|sibling-of-mountpoint", cs.Subject, c16sizeClass(len(want))), fmt.Sprintf("[%s] listing %q, an ordinary directory whose name starts with the name of the mount point next to it, returned %s (err %v); it holds exactly in-sibling", cs.Subject, prefix+siblingOfMount, fsx.EntriesString(inner), ierr), cs)
 		}
 	}
+	// a caller owns the slice a listing returns: an earlier listing is reordered, overwritten and appended to before the
+	// listing that is judged (a layer that hands out its own remembered slice would now serve the scribbled one)
+	_ = core.Recover(func() {
+		if pre, perr := hackpadfs.ReadDir(sub.fs, cs.Dir); perr == nil && len(pre) > 1 {
+			c16mistreat(pre)
+			res.Count("returned_listings_overwritten", 1)
+		}
+	})
 	// (a) by-name listing
 	var entries []hackpadfs.DirEntry
 	var lerr error
@@ -443,6 +471,9 @@ func c16run(env *core.Env, idx int) core.CaseResult {
 			got[e.Name()]++
 		}
 		k := len(page)
+		if k > 0 {
+			c16mistreat(page) // the page is the caller's: what it does to it must not show in the pages to come
+		}
 		ctx := fmt.Sprintf("call %d ReadDir(%d) with %d entries remaining returned %d entries, err=%v", pi, n, remaining, k, perr)
 		switch {
 		case n > 0 && remaining == 0:
@@ -490,7 +521,25 @@ func c16run(env *core.Env, idx int) core.CaseResult {
 		}
 	}
 
-	// (c) listing a regular file
+	// (c) listing a regular file: by name, and through the very handle that has just created it
+	if sub.writable {
+		var h hackpadfs.File
+		var oerr error
+		if p := core.Recover(func() { h, oerr = hackpadfs.OpenFile(sub.fs, "znew", os.O_RDWR|os.O_CREATE|os.O_EXCL, 0o644) }); p == "" && oerr == nil {
+			for _, n := range []int{-1, 1} {
+				var herr error
+				var hentries []hackpadfs.DirEntry
+				if p := core.Recover(func() { hentries, herr = hackpadfs.ReadDirFile(h, n) }); p != "" {
+					bad("notdir", "panic", fmt.Sprintf("ReadDir(%d) on the handle that created a regular file panicked: %s", n, p))
+				} else if fsx.Class(herr) != "ErrNotDir" && fsx.Class(herr) != "ErrNotImplemented" {
+					bad("notdir", "creating-handle:got="+fsx.Class(herr)+",want=ErrNotDir", fmt.Sprintf("ReadDir(%d) on the handle that has just created the regular file znew returned %d entries, err %v", n, len(hentries), herr))
+				}
+				res.Count("readdir_on_creating_handle", 1)
+			}
+			_ = h.Close()
+			_ = hackpadfs.Remove(sub.fs, "znew")
+		}
+	}
 	var nerr error
 	if p := core.Recover(func() { _, nerr = hackpadfs.ReadDir(sub.fs, "zfile") }); p != "" {
 		bad("notdir", "panic", "ReadDir of a regular file panicked: "+p)
